@@ -24,6 +24,10 @@ func init() {
 			"correctness of net.IPNet.Contains and ipaddr cursors, ipfamily.ForService.",
 		Run: runC02,
 		Mutants: []Mutant{
+			{Name: "same-ips-ignores-extra-requested", File: "controller/service.go",
+				Old: "\treturn reflect.DeepEqual(ipsA, ipsB)\n", New: "\tfor i := range ipsA {\n\t\tif i >= len(ipsB) || !reflect.DeepEqual(ipsA[i], ipsB[i]) {\n\t\t\treturn false\n\t\t}\n\t}\n\treturn true\n", Expect: "SAME-IPS"},
+			{Name: "namespace-scan-stops-at-first-member", File: "internal/config/config.go",
+				Old: "\t\tfor _, ns := range namespaces {\n\t\t\tnsLabels := labels.Set(ns.Labels)\n", New: "\t\tfor _, ns := range namespaces {\n\t\t\tif serviceAllocations.Namespaces.Has(ns.Name) {\n\t\t\t\tbreak\n\t\t\t}\n\t\t\tnsLabels := labels.Set(ns.Labels)\n", Expect: "ALLOCATE-TO"},
 			{Name: "prefer-dual-stack-accepts-any-family", File: "controller/service.go",
 				Old: "\tif clusterIPsIPFamily == ipfamily.DualStack && familyPolicy == v1.IPFamilyPolicyPreferDualStack {\n\t\treturn false", New: "\tif familyPolicy == v1.IPFamilyPolicyPreferDualStack {\n\t\treturn false", Expect: "FAMILY-KEPT"},
 			{Name: "same-length-prefixes-never-contained", File: "internal/config/config.go",
